@@ -78,6 +78,7 @@ static Verdict runCase(const Case& c, Info& info)
                     ++undefinedReports;
                 }
             };
+        out.tail = 16;
         g_fill = fill;
         g_poison = !underValgrind;
         runWorkload(c.w, out);
